@@ -132,7 +132,7 @@ Proof.
     - injection E as <- _ _. split; [apply mach_same_refl|reflexivity]. }
   destruct (if doMap then sm_map c m1 mem SyncMem.sm_init else (m1, SyncMem.sm_init, OK tt)) as ((m2 & s2) & mr) eqn:Emap.
   destruct (Hmap _ _ _ eq_refl) as (Hm12 & Hn2).
-  assert (Hms : mems_same (m_mems (v_m v) ++ [d]) (m_mems m2)) by (rewrite <- A3; apply Hm12).
+  assert (Hms : mems_same (m_mems (v_m v) ++ [d]) (m_mems m2)) by (unfold d; rewrite <- A3; apply Hm12).
   assert (Hfresh : forall x, In x (m_mems (v_m v)) -> dm_id x <> dm_id d).
   { intros x Hx. pose proof (vi_dev_next _ _ _ _ HI) as Hn. rewrite Forall_forall in Hn. specialize (Hn x Hx). cbn. lia. }
   destruct mr as [[]|code| |]; auto.
@@ -148,6 +148,131 @@ Proof.
     destruct (free_vk c m2 ty size mem) as (m3 & fr). cbn [fst snd] in *.
     assert (Hm3 : mach_same (v_m v) m3).
     { split; [rewrite F1; apply (mems_same_remove_added _ _ d); auto|]. rewrite F2, Hn2. lia. }
-    destruct fr as [[]|code2| |]; auto. contradiction.
+    destruct fr as [[]|code2| |]; [apply Hfail; exact Hm3|contradiction|exact I|exact I].
+Qed.
+
+Lemma NoDup_app_r {A} (a b : list A) : NoDup (a ++ b) -> NoDup b.
+Proof. induction a as [|x a IH]; cbn; auto. intros H. inversion H; subst. auto. Qed.
+
+(* dedicated allocations of list lr made by the running call: allocated, kind 2, not yet registered *)
+Definition ded_slots (v : vam) (lr : lref) (slots : list Z) : Prop :=
+  forall s, In s slots -> exists a, slot_is v s a /\ a_kind a = 2 /\ a_lref a = lr.
+
+Lemma ded_slots_frame v v' lr S slots :
+  ded_slots v lr slots -> tab_frame v v' S -> (forall s, In s slots -> ~ In s S) -> ded_slots v' lr slots.
+Proof.
+  intros H T Hd s Hs. destruct (H s Hs) as (a & Sa & R). exists a. split; [|auto]. apply (slot_is_frame _ _ _ _ _ T); auto.
+Qed.
+
+Lemma dedicated_loop_inv slots : forall v X lr l ty size sub doMap allowed done ded,
+  VamInvU c v done X -> get_blist v lr = Some l -> bl_type l = ty -> NoDup (slots ++ done) ->
+  dead_slots v slots -> ded_slots v lr done ->
+  let '(v', r, done') := dedicated_loop c v lr ty size sub doMap allowed slots done ded in
+  match r with
+  | PANIC | STUCK => True
+  | _ =>
+    VamInvU c v' done' X /\ tab_frame v v' slots /\ lists_frame v v' /\ ded_slots v' lr done' /\ NoDup done' /\
+    (forall s, In s done -> In s done') /\ (forall s, In s done' -> In s (slots ++ done)) /\
+    match r with
+    | OK _ => forall s, In s slots -> In s done'
+    | _ => forall s, In s slots -> In s done' \/ (0 <= s < zlen (v_tab v') /\ a_allocated (get_alloc v' s) = false)
+    end
+  end.
+Proof.
+  induction slots as [|s tl IH]; intros v X lr l ty size sub doMap allowed done ded HI Hg Hty Hnd Hdead Hdone; cbn [dedicated_loop].
+  - split; [auto|]. split; [apply tab_frame_refl|]. split; [apply lists_frame_refl|]. split; [auto|].
+    split; [rewrite app_nil_l in Hnd; auto|]. split; [auto|]. split; [auto|]. intros ? [].
+  - destruct (Hdead s (or_introl eq_refl)) as (Hr & Hd).
+    pose proof (ded_page_inv v done X lr l ty size sub doMap allowed s ded HI Hg Hty Hr Hd) as P.
+    destruct (allocate_dedicated_page c v lr ty size sub doMap allowed s ded) as (v1 & r).
+    cbn [app] in Hnd. inversion Hnd as [|? ? Hns Hnd']; subst.
+    assert (Hnd_done : NoDup done) by (apply NoDup_app_r in Hnd'; auto).
+    assert (Hdone1 : tab_frame v v1 [s] -> ded_slots v1 lr done).
+    { intros T. eapply ded_slots_frame; [exact Hdone|exact T|]. intros s1 H1 [<-|[]]. apply Hns. apply in_app_iff. auto. }
+    assert (Hdead1 : tab_frame v v1 [s] -> dead_slots v1 tl).
+    { intros T. eapply dead_slots_frame; [intros s1 H1; apply Hdead; right; exact H1|exact T|].
+      intros s1 H1 [<-|[]]. apply Hns. apply in_app_iff. auto. }
+    destruct r as [[]|code| |]; auto.
+    + destruct P as (I1 & T1 & L1 & (a & Sa & Ka & La)).
+      assert (Hnd1 : NoDup (tl ++ s :: done)).
+      { eapply Permutation.Permutation_NoDup; [apply Permutation.Permutation_middle|exact Hnd]. }
+      assert (Hds1 : ded_slots v1 lr (s :: done)).
+      { intros x [<-|Hx]; [eauto|apply (Hdone1 T1); auto]. }
+      destruct (lf_some _ _ L1 _ _ Hg) as (l1 & Hg1 & C1).
+      assert (Hty1 : bl_type l1 = bl_type l) by (apply C1).
+      specialize (IH v1 X lr l1 (bl_type l) size sub doMap allowed (s :: done) ded I1 Hg1 Hty1 Hnd1 (Hdead1 T1) Hds1).
+      destruct (dedicated_loop c v1 lr (bl_type l) size sub doMap allowed tl (s :: done) ded) as ((v2 & r2) & done2).
+      destruct r2 as [[]|code| |]; auto; destruct IH as (I2 & T2 & L2 & D2 & N2 & S2 & Q2 & O2);
+        (split; [auto|]);
+        (split; [eapply tab_frame_trans; [exact T1|exact T2|intros ? [<-|[]]; left; reflexivity|intros; right; auto]|]);
+        (split; [eapply lists_frame_trans; eauto|]); (split; [auto|]); (split; [auto|]);
+        (split; [intros x Hx; apply S2; right; auto|]);
+        (split; [intros x Hx; specialize (Q2 x Hx); apply in_app_iff in Q2; destruct Q2 as [H|[<-|H]];
+                 [right; apply in_app_iff; auto|left; reflexivity|right; apply in_app_iff; auto]|]).
+      * intros x [<-|Hx]; [apply S2; left; reflexivity|auto].
+      * intros x [<-|Hx]; [left; apply S2; left; reflexivity|auto].
+    + destruct P as (I1 & T1 & L1 & D1). split; [auto|].
+      split; [eapply tab_frame_weaken; [exact T1|intros ? [<-|[]]; left; reflexivity]|]. split; [auto|].
+      split; [apply Hdone1; auto|]. split; [auto|]. split; [auto|].
+      split; [intros x Hx; right; apply in_app_iff; auto|].
+      intros x [<-|Hx]; right.
+      * split; [destruct T1 as (E & _); lia|auto].
+      * apply (Hdead1 T1). auto.
+Qed.
+
+Lemma dedicated_rollback_inv done : forall v X lr ty,
+  VamInvU c v done X -> NoDup done -> ded_slots v lr done ->
+  let '(v', r) := dedicated_rollback c v ty done in
+  match r with
+  | OK _ => VamInvU c v' [] X /\ tab_frame v v' done /\ lists_frame v v' /\ dead_slots v' done
+  | ER _ => False
+  | _ => True
+  end.
+Proof.
+  induction done as [|s tl IH]; intros v X lr ty HI Hnd Hds; cbn [dedicated_rollback].
+  - split; [auto|]. split; [apply tab_frame_refl|]. split; [apply lists_frame_refl|intros ? []].
+  - inversion Hnd as [|? ? Hns Hnd']; subst.
+    destruct (Hds s (or_introl eq_refl)) as (a & Sa & Ka & La). rewrite (get_alloc_slot _ _ _ Sa).
+    pose proof (free_vk_spec c (v_m v) ty (a_size a) (a_mem a)) as (F1 & F2).
+    pose proof (free_vk_no_error c (v_m v) ty (a_size a) (a_mem a)) as NE.
+    destruct (free_vk c (v_m v) ty (a_size a) (a_mem a)) as (m1 & fr). cbn [fst snd] in *.
+    destruct fr as [[]|code| |]; auto.
+    pose proof (remove_allocation_no_error c m1 (type_heap c ty) (a_size a)) as NE2.
+    unfold remove_allocation in *. destruct (Budget.remove_alloc _ _ _ _) as ((b2 & r2) & cs2). cbn [snd] in NE2.
+    set (m2 := set_bud m1 b2) in *.
+    set (v1 := set_alloc (set_m v m2) s (set_allocated a false)).
+    assert (I1 : VamInvU c v1 tl X).
+    { apply (VamInvU_remove_ded c v v1 (s :: tl) tl X s a HI Sa Ka); unfold v1.
+      - intros lr1. rewrite get_blist_set_alloc. apply get_blist_set_m.
+      - reflexivity.
+      - cbn. exact F1.
+      - cbn. exact F2.
+      - reflexivity.
+      - reflexivity.
+      - reflexivity.
+      - reflexivity.
+      - reflexivity.
+      - reflexivity.
+      - intros lr1 x. rewrite get_dedlist_set_alloc, get_dedlist_set_m. split; [|tauto]. intros Hin. split; [auto|]. intros ->.
+        destruct (vi_dedlists _ _ _ _ HI _ _ Hin) as (a2 & S2 & K2 & L2).
+        assert (a2 = a) by (destruct S2, Sa; congruence). subst a2.
+        destruct (vi_unreg _ _ _ _ HI s (or_introl eq_refl)) as (a3 & S3 & K3 & N3).
+        assert (a3 = a) by (destruct S3, Sa; congruence). subst a3. apply N3. rewrite L2. exact Hin.
+      - intros lr1. rewrite get_dedlist_set_alloc, get_dedlist_set_m. eapply vi_dedlists_nodup; eauto.
+      - intros x. split; [intros Hx; split; [right; auto|intros ->; contradiction]|intros ([<-|Hx] & Hne); [contradiction|auto]]. }
+    assert (T1 : tab_frame v v1 [s]) by (unfold v1; eapply tab_frame_trans_same; [apply tab_frame_set_m|apply tab_frame_set_alloc]).
+    assert (L1 : lists_frame v v1) by (unfold v1; eapply lists_frame_trans; [apply lists_frame_set_m|apply lists_frame_set_alloc]).
+    destruct r2; try exact I; try contradiction.
+    assert (Hds1 : ded_slots v1 lr tl).
+    { eapply ded_slots_frame; [intros x Hx; apply Hds; right; exact Hx|exact T1|]. intros x Hx [<-|[]]. contradiction. }
+    specialize (IH v1 X lr ty I1 Hnd' Hds1). fold m2. fold v1.
+    destruct (dedicated_rollback c v1 ty tl) as (v2 & r3). destruct r3 as [[]|code| |]; auto.
+    destruct IH as (I2 & T2 & L2 & D2). split; [auto|].
+    split; [eapply tab_frame_trans; [exact T1|exact T2|intros ? [<-|[]]; left; reflexivity|intros; right; auto]|].
+    split; [eapply lists_frame_trans; eauto|].
+    intros x [<-|Hx]; [|apply D2; auto].
+    split; [destruct T2 as (E & _); destruct T1 as (E1 & _); rewrite E, E1; eapply slot_is_range; eauto|].
+    rewrite (get_alloc_frame _ _ _ _ T2) by auto. unfold v1, get_alloc. cbn.
+    rewrite nth_z_set_same by (eapply slot_is_range; eauto). reflexivity.
 Qed.
 End WithCfg.
